@@ -39,6 +39,20 @@ class CtlProperty:
 
         return CtlProperty(self.pid, self.oracle_cls, cfg_for, self.base, self.cls_for, self.world_cls)
 
+    def as_burst(self, alphabet: Any = None) -> 'CtlProperty':
+        """The same property with requests placed only at quiescent points and right behind one another there."""
+        inner = self.cfg_for
+
+        def cfg_for(unit: Any) -> ctl.Config:
+            cfg = inner(unit)
+            cfg.burst = True
+            cfg.early_gates = False
+            if alphabet is not None:
+                cfg.alphabet = tuple(alphabet)
+            return cfg
+
+        return CtlProperty(self.pid, self.oracle_cls, cfg_for, self.base, self.cls_for, self.world_cls)
+
     def replay(self, doc: Dict[str, Any]) -> List[Dict[str, Any]]:
         from ..cli import to_tuple
         unit = to_tuple(doc['unit'])
